@@ -22,6 +22,12 @@ Hypotheses, all explicit:
   literal) and the clock value is within `int()`'s 4300-digit limit.
 Lifetime is on the integer seconds the code embeds (`int(_getTime())`); "same address" is equality after
 the code's own normalisation (`None`, `""`, `b""` are one address).
+
+Histories (§5): a factory keeps nothing between calls but its key, so the model of a history of responses
+presented to ONE factory (`decodeAll`) decodes them one by one; `history_accepts_iff` is the headline for
+the `i`-th response of any history.  That the real factory is history-independent in the same way is what
+the differential tie checks (driver op `runh`: the same response presented several times, at different
+clock values and from different addresses).
 -/
 namespace TwistedProps.C48
 open Twisted.Py Twisted.Cred.Digest
@@ -284,5 +290,54 @@ def acceptsB (now : Int) (host : Option Bytes) (p : Bytes) : Bool :=
 example : acceptsB 907 (some (s "10.2.3.4")) (s "pw") = true ∧ acceptsB 907 (some (s "10.2.3.4")) (s "pW") = false
     ∧ acceptsB 908 (some (s "10.2.3.4")) (s "pw") = false ∧ acceptsB 907 (some (s "10.2.3.5")) (s "pw") = false := by
   decide +kernel
+
+/-! ## 5. Histories: several responses presented to one factory -/
+
+/-- A response is judged alone: whatever was presented to the factory before it (`pre`) and whatever
+    follows (`post`), the outcome of its `decode` is the outcome it has on a fresh factory. -/
+theorem history_each_response_judged_alone (H : Hash) (pk realm : Bytes) (pre post : List Request)
+    (r : Request) :
+    (decodeAll H pk realm (pre ++ r :: post))[pre.length]? =
+      some (decode H pk realm r.now r.response r.method r.host) := by
+  unfold decodeAll
+  simp
+
+/-- `decodeAll` answers every request of the history, in order. -/
+theorem history_length (H : Hash) (pk realm : Bytes) (reqs : List Request) :
+    (decodeAll H pk realm reqs).length = reqs.length := by
+  unfold decodeAll; simp
+
+/-- **C48 over histories.**  In any history of responses presented to one factory, the credentials
+    decoded from the `i`-th accept password `p` iff THAT response parses to fields with a non-empty
+    username whose digest was computed with `p` and whose nonce and opaque are byte-for-byte those of an
+    issued challenge, issued to the address it comes from, not older than its lifetime at the moment it is
+    presented — earlier acceptances or refusals (of this or any other response) change nothing. -/
+theorem history_accepts_iff
+    (H : Hash) (hinj : ∀ f, Function.Injective (H f)) (pk realm : Bytes)
+    (issued : List Challenge) (hwf : ∀ c ∈ issued, c.WF)
+    (reqs : List Request) (i : Nat) (r : Request) (hr : reqs[i]? = some r)
+    (hdy : ∀ auth o, parseResponse r.response = .ok auth → auth.get (s "opaque") = some o →
+      Unforged H pk issued o)
+    (p : Bytes) :
+    (∃ creds, (decodeAll H pk realm reqs)[i]? = some (.ok creds) ∧ checkPassword H creds p = .ok true) ↔
+      ∃ auth user n o, parseResponse r.response = .ok auth ∧ auth.get (s "username") = some user ∧ user ≠ []
+        ∧ auth.get (s "nonce") = some n ∧ auth.get (s "opaque") = some o
+        ∧ ComputedWith H ⟨user, r.method, realm, auth⟩ p
+        ∧ ∃ c ∈ issued, n = c.nonce ∧ o = c.opaque H pk ∧ normIp r.host = normIp c.ip
+            ∧ r.now - c.t ≤ lifetime := by
+  rw [← accepts_iff_right_password_unaltered_challenge_same_client_within_lifetime H hinj pk realm issued hwf
+    r.now r.response r.method r.host hdy p]
+  unfold Accepts decodeAll
+  simp only [List.getElem?_map, hr, Option.map_some, Option.some.injEq]
+
+/-- non-vacuity: `exHeader` presented three times to one factory — in time from its address, after the
+    lifetime, in time again: accepted, refused, accepted; from another address in between: refused. -/
+def histB (reqs : List (Int × Option Bytes)) (p : Bytes) : List Bool :=
+  (decodeAll toyH [1, 2] (s "realm") (reqs.map fun (t, h) => ⟨t, exHeader, s "GET", h⟩)).map fun
+    | .ok c => (match checkPassword toyH c p with | .ok b => b | .error _ => false)
+    | .error _ => false
+
+example : histB [(907, some (s "10.2.3.4")), (908, some (s "10.2.3.4")), (100, some (s "10.2.3.5")),
+    (907, some (s "10.2.3.4"))] (s "pw") = [true, false, false, true] := by decide +kernel
 
 end TwistedProps.C48
